@@ -14,10 +14,12 @@
 #include <librfn/messageq.h>
 
 static messageq_t mq;
-static uint8_t store[64];
-#define MSGLEN 4
+static uint8_t store_area[16 + 32 * 300 + 320 + 16];
+#define store (store_area + 16)
+static int MSGLEN = 4, REM, HOW;	/* message length, bytes of storage beyond the last whole message, 0 messageq_init / 1 MESSAGEQ_VAR_INIT */
 static int Q, HELD, N, P;		/* depth, buffers held before the chain starts, chain length, interruption point */
 
+static int MODE, KDONE, KMAX;		/* MODE 1: not a nested chain but KMAX complete claims, one before each atomic operation #>=P of the outer claim */
 static int level, opidx[512];		/* nesting level and index of the next atomic operation of the claim at that level */
 static void *got[512];
 static int chain_active;
@@ -27,14 +29,33 @@ static void hook(void)
 {
 	if (!chain_active) return;
 	int l = level;
+	if (MODE == 1) {
+		/* one complete claim by another sender before every atomic operation of the outer claim from #P on */
+		if (l == 0 && opidx[0]++ >= P && KDONE < KMAX) { int k = ++KDONE; do_claim(k); }
+		return;
+	}
 	if (opidx[l]++ == P && l + 1 < N) do_claim(l + 1);	/* the next handler arrives right here */
 }
+static int free_before[512];		/* MODE 1: buffers free when claim #l began */
 static void do_claim(int l)
 {
 	int saved = level;
 	level = l; opidx[l] = 0;
+	if (MODE == 1) { int taken = 0; for (int i = 1; i < l; i++) taken += got[i] != NULL; free_before[l] = Q - HELD - taken; }
 	got[l] = messageq_claim(&mq);
 	level = saved;
+}
+static void init_queue(void)
+{
+	memset(store_area, 0x5c, sizeof(store_area));
+	if (HOW) { messageq_t t = MESSAGEQ_VAR_INIT(store, (size_t)(Q * MSGLEN + REM), (size_t)MSGLEN); memcpy(&mq, &t, sizeof(mq)); }
+	else { memset(&mq, 0xa5, sizeof(mq)); messageq_init(&mq, store, (size_t)(Q * MSGLEN + REM), (size_t)MSGLEN); }
+}
+static int guards_ok(void)
+{
+	for (int i = 0; i < 16; i++) if (store_area[i] != 0x5c) return 0;
+	for (size_t i = (size_t)(16 + Q * MSGLEN); i < sizeof(store_area); i++) if (store_area[i] != 0x5c) return 0;
+	return 1;
 }
 
 /* ---- the few -fsanitize=thread ABI functions messageq.c needs */
@@ -65,49 +86,109 @@ static void fail(const char *clause, const char *fmt, ...)
 	va_list ap; va_start(ap, fmt); char *m = vx_vfmt(fmt, ap); va_end(ap);
 	char sig[160], rep[160];
 	/* one signature per clause: the first (smallest) failing tuple names it */
-	snprintf(sig, sizeof(sig), "deep-nesting|%s", clause);
-	snprintf(rep, sizeof(rep), "Q=%d\nheld=%d\nN=%d\nP=%d\n", Q, HELD, N, P);
-	vx_violation(sig, rep, "%s: %s -- depth %d, %d buffer(s) held, %d claims in flight, each interrupted before its atomic operation #%d", clause, m, Q, HELD, N, P);
+	snprintf(sig, sizeof(sig), "%s|%s", MODE == 0 ? "deep-nesting" : MODE == 1 ? "stalled-claim" : "geometry", clause);
+	snprintf(rep, sizeof(rep), "mode=%d\nQ=%d\nheld=%d\nN=%d\nP=%d\nmsglen=%d\nrem=%d\nhow=%d\n", MODE, Q, HELD, N, P, MSGLEN, REM, HOW);
+	if (MODE == 0) vx_violation(sig, rep, "%s: %s -- depth %d, %d buffer(s) held, %d claims in flight, each interrupted before its atomic operation #%d", clause, m, Q, HELD, N, P);
+	else if (MODE == 1) vx_violation(sig, rep, "%s: %s -- depth %d, %d buffer(s) held, one claim stalled while %d other claims complete, one before each of its atomic operations from #%d on", clause, m, Q, HELD, N, P);
+	else vx_violation(sig, rep, "%s: %s -- depth %d, message length %d, %d spare byte(s) of storage, %d claim/send/receive/release cycles before, descriptor from %s", clause, m, Q, MSGLEN, REM, N, HOW ? "MESSAGEQ_VAR_INIT" : "messageq_init");
 	free(m);
 }
 
 static int run_case(void)
 {
-	void *held[8]; int nheld = 0;
-	memset(store, 0, sizeof(store));
-	messageq_init(&mq, store, (size_t)(Q * MSGLEN), MSGLEN);
-	chain_active = 0;
+	void *held[32]; int nheld = 0;
+	init_queue();
+	chain_active = 0; KDONE = 0; KMAX = MODE == 1 ? N : 0;
 	for (int i = 0; i < HELD; i++) { held[nheld] = messageq_claim(&mq); if (!held[nheld]) { fail("setup", "sequential claim %d of %d refused", i, Q); return 1; } nheld++; }
-	memset(got, 0, sizeof(void *) * (size_t)N);
+	memset(got, 0, sizeof(got));
 	chain_active = 1; level = 0;
 	if (VX_TRY) { do_claim(0); VX_END; } else { VX_END; chain_active = 0; fail("fault", "%s", vx_fault_msg); return 1; }
 	chain_active = 0;
 	n_cases++; n_claims += (uint64_t)N;
 	/* at most Q - HELD of the N claims may succeed, each with a buffer nobody else has */
 	int ok = 0; uint32_t mask = 0;
+	int nclaims = MODE == 1 ? 1 + KDONE : N;
 	for (int i = 0; i < nheld; i++) mask |= 1u << (((uint8_t *)held[i] - store) / MSGLEN);
-	for (int l = 0; l < N; l++) if (got[l]) {
+	if (MODE == 1 && !got[0]) {
+		/* fails only if no buffer was free at some instant during the call: the others take one buffer each and keep it */
+		int taken = 0; for (int i = 1; i <= KDONE; i++) taken += got[i] != NULL;
+		if (Q - HELD - taken > 0) { fail("claim-fails-with-free-buffer", "the stalled claim returned NULL although %d of %d buffers were still free when it gave up (%d other claims had completed meanwhile, each keeping its buffer)", Q - HELD - taken, Q, KDONE); return 1; }
+	}
+	for (int l = 0; l < nclaims; l++) if (got[l]) {
 		long off = (uint8_t *)got[l] - store;
 		ok++;
 		if (off < 0 || off >= Q * MSGLEN || off % MSGLEN) { fail("claim-pointer", "claim at nesting level %d returned a pointer outside the storage", l); return 1; }
 		if (mask & (1u << (off / MSGLEN))) { fail("double-hand-out", "claim at nesting level %d was given buffer %ld, which already belongs to another claimer", l, off / MSGLEN); return 1; }
 		mask |= 1u << (off / MSGLEN);
 	}
-	n_ok += (uint64_t)ok; n_null += (uint64_t)(N - ok);
+	n_ok += (uint64_t)ok; n_null += (uint64_t)(nclaims - ok);
 	if (ok > Q - HELD) { fail("overcommit", "%d claims succeeded with only %d buffers free", ok, Q - HELD); return 1; }
 	/* every claim ran to completion one after the other from the innermost outwards, so with the chain unwound exactly
 	 * min(N, free) could have been served; fewer is allowed only while others were in flight - but the outermost claim
 	 * completes last, with nobody in flight any more: */
 	/* quiescence: send, receive, release everything; then exactly Q claims succeed */
 	for (int i = 0; i < nheld; i++) messageq_send(&mq, held[i]);
-	for (int l = N - 1; l >= 0; l--) if (got[l]) messageq_send(&mq, got[l]);
+	for (int l = nclaims - 1; l >= 0; l--) if (got[l]) messageq_send(&mq, got[l]);
 	int rec = 0; void *m;
 	while ((m = messageq_receive(&mq)) && rec < 64) { messageq_release(&mq, m); rec++; }
 	if (rec != nheld + ok) { fail("lost-message", "%d messages sent, %d received", nheld + ok, rec); return 1; }
 	int fr = 0; while (fr < Q + 2 && messageq_claim(&mq)) fr++;
 	if (fr != Q) { fail("free-count", "after quiescence %d claims succeed, the queue holds %d buffers", fr, Q); return 1; }
+	if (!guards_ok()) { fail("outside-the-storage", "bytes beside the whole messages of the storage were modified"); return 1; }
 	vx_hasher h; vx_h_init(&h); vx_h_u64(&h, (uint64_t)Q | (uint64_t)HELD << 8 | (uint64_t)P << 16 | (uint64_t)ok << 24 | (uint64_t)(N > 255) << 40 | (uint64_t)(N > 127) << 41);
 	vx_set_add(&distinct, vx_h_done(&h));
+	return 0;
+}
+
+/* ---- MODE 2: geometry family - every depth 1..32 x message lengths that are not powers of two / make the storage cross
+ * 2^8 and 2^13 bytes x spare bytes behind the last whole message x both ways of building the descriptor x a run-in of
+ * N claim/send/receive/release cycles (cursors on both sides of 2^8 and 2^16); then the queue is filled completely,
+ * sent in claim order, and received TWO AT A TIME (the receiver holds two messages before it releases the first) */
+static uint8_t pat(int i, int j) { return (uint8_t)(i * 31 + j * 7 + 1); }
+static int geometry_case(void)
+{
+	void *c[34]; int n = 0;
+	init_queue();
+	chain_active = 0;
+	n_cases++;
+	if (!(VX_TRY)) { VX_END; fail("fault", "%s", vx_fault_msg); return 1; }
+	for (int i = 0; i < N; i++) {
+		uint8_t *m = messageq_claim(&mq);
+		if (!m) { VX_END; fail("claim-fails-with-free-buffer", "run-in cycle %d: claim refused on an empty queue", i); return 1; }
+		m[0] = (uint8_t)i; if (MSGLEN > 1) m[MSGLEN - 1] = (uint8_t)~i;
+		messageq_send(&mq, m);
+		uint8_t *r = messageq_receive(&mq);
+		if (r != m) { VX_END; fail("lost-message", "run-in cycle %d: receive did not return the message just sent", i); return 1; }
+		if (r[0] != (uint8_t)i || (MSGLEN > 1 && r[MSGLEN - 1] != (uint8_t)~i)) { VX_END; fail("payload", "run-in cycle %d: contents changed", i); return 1; }
+		messageq_release(&mq, r);
+	}
+	for (; n < Q + 2; n++) {
+		c[n] = messageq_claim(&mq);
+		if (!c[n]) break;
+		long off = (uint8_t *)c[n] - store;
+		if (n >= Q) { VX_END; fail("overcommit", "claim number %d succeeds on a queue of %d buffers", n + 1, Q); return 1; }
+		if (off < 0 || off + MSGLEN > Q * MSGLEN + REM || off % MSGLEN) { VX_END; fail("claim-pointer", "claim %d returned offset %ld: not a whole message inside the storage", n, off); return 1; }
+		for (int k = 0; k < n; k++) if (c[k] == c[n]) { VX_END; fail("double-hand-out", "claims %d and %d were given the same buffer", k, n); return 1; }
+		for (int j = 0; j < MSGLEN; j++) ((uint8_t *)c[n])[j] = pat(n, j);
+	}
+	if (n != Q) { VX_END; fail("claim-fails-with-free-buffer", "only %d of %d buffers can be claimed", n, Q); return 1; }
+	for (int i = 0; i < Q; i++) messageq_send(&mq, c[i]);
+	for (int i = 0; i < Q; ) {
+		uint8_t *r[2]; int k = 0;
+		for (; k < 2 && i + k < Q; k++) {
+			r[k] = messageq_receive(&mq);
+			if (r[k] != c[i + k]) { VX_END; fail(r[k] ? "order" : "lost-message", "message %d of %d: receive returned %s (the receiver holds %d message(s))", i + k, Q, r[k] ? "another buffer than the one claimed at that position" : "NULL", k); return 1; }
+			for (int j = 0; j < MSGLEN; j++) if (r[k][j] != pat(i + k, j)) { VX_END; fail("payload", "message %d: byte %d reads 0x%02x, written 0x%02x", i + k, j, r[k][j], pat(i + k, j)); return 1; }
+		}
+		for (int q = 0; q < k; q++) messageq_release(&mq, r[q]);
+		i += k;
+	}
+	if (messageq_receive(&mq)) { VX_END; fail("extra-message", "receive returns a message after all %d were received", Q); return 1; }
+	int fr = 0; while (fr < Q + 2 && messageq_claim(&mq)) fr++;
+	VX_END;
+	if (fr != Q) { fail("free-count", "after quiescence %d claims succeed, the queue holds %d buffers", fr, Q); return 1; }
+	if (!guards_ok()) { fail("outside-the-storage", "bytes beside the whole messages of the storage were modified"); return 1; }
+	n_claims += (uint64_t)(N + 2 * Q);
 	return 0;
 }
 
@@ -119,10 +200,13 @@ int main(int argc, char **argv)
 	char *rp = vx_read_replay();
 	if (rp) {
 		Q = atoi(vx_replay_field(rp, "Q")); HELD = atoi(vx_replay_field(rp, "held")); N = atoi(vx_replay_field(rp, "N")); P = atoi(vx_replay_field(rp, "P"));
-		run_case();
+		if (vx_replay_field(rp, "mode")) { MODE = atoi(vx_replay_field(rp, "mode")); MSGLEN = atoi(vx_replay_field(rp, "msglen")); REM = atoi(vx_replay_field(rp, "rem")); HOW = atoi(vx_replay_field(rp, "how")); }
+		if (Q < 1 || Q > 32 || MSGLEN < 1 || MSGLEN > 300 || REM < 0 || REM >= 320 || N < 0 || N > 70000) { fprintf(stderr, "c04_deep: malformed replay file\n"); return 3; }
+		if (MODE == 2) geometry_case(); else run_case();
 		vx_finish();
 		return 0;
 	}
+	MODE = 0; MSGLEN = 4; REM = 0; HOW = 0;
 	static const int qs[] = { 1, 2, 4, 8 };
 	int maxn = vx_thorough() ? 500 : 300, part = 0, stop = 0;
 	for (unsigned qi = 0; qi < 4 && !stop; qi++)
@@ -133,6 +217,39 @@ int main(int argc, char **argv)
 				for (P = 0; P <= 6 && !stop; P++)
 					if (run_case()) stop = 1;	/* smallest failing tuple first; one is enough */
 		}
+	/* ---- stalled claim: K complete claims, one before each atomic operation from #P on */
+	MODE = 1; MSGLEN = 4; REM = 0;
+	static const int q1[] = { 2, 3, 5, 8, 16, 32 };
+	for (unsigned qi = 0; qi < 6 && !stop; qi++)
+		for (HOW = 0; HOW < 2 && !stop; HOW++, part++) {
+			if (!vx_mine((uint64_t)part)) continue;
+			Q = q1[qi];
+			for (HELD = 0; HELD <= Q && HELD <= 2 && !stop; HELD++)
+				for (N = 1; N <= 12 && !stop; N++)
+					for (P = 0; P <= 6 && !stop; P++)
+						if (run_case()) stop = 1;
+		}
+	/* ---- geometry */
+	MODE = 2; HELD = 0; P = 0;
+	static const int mls[] = { 4, 1, 2, 3, 8, 40, 300 };
+	static const int advs[] = { 0, 1, 254, 255, 256, 257, 65534, 65535, 65536, 65537 };
+	for (Q = 1; Q <= 32 && !stop; Q++)
+		for (unsigned mi = 0; mi < 7 && !stop; mi++, part++) {
+			if (!vx_mine((uint64_t)part)) continue;
+			MSGLEN = mls[mi];
+			for (int ri = 0; ri < 3 && !stop; ri++) {
+				REM = ri == 0 ? 0 : ri == 1 ? 1 : MSGLEN - 1;
+				if (REM >= MSGLEN || (ri == 2 && MSGLEN - 1 <= 1)) continue;
+				for (HOW = 0; HOW < 2 && !stop; HOW++)
+					for (unsigned ai = 0; ai < 10 && !stop; ai++) {
+						N = advs[ai];
+						if (N > 300 && !(Q == 3 || Q == 5 || Q == 7 || Q == 17 || Q == 32) ) continue;	/* the long run-ins on depths that do not divide 2^16 (and on 32) */
+						if (N > 300 && mi > 1 && !vx_thorough()) continue;
+						if (geometry_case()) stop = 1;
+					}
+			}
+		}
+	MODE = 0;
 	vx_count("traces", n_cases); vx_count("deep_nesting_distinct_outcomes", distinct.n);
 	vx_count("deep_nesting_cases", n_cases); vx_count("deep_nesting_claims", n_claims); vx_count("deep_nesting_claims_ok", n_ok); vx_count("deep_nesting_claims_null", n_null);
 	vx_max("deep_nesting_max_claims_in_flight", (uint64_t)maxn);
